@@ -131,7 +131,9 @@ CLAIMED = {
         text="rows_per_apid / create_rows (the rows of an APID are the cells of that APID's packets in stream order, files in the "
              "order given: the accumulation loop equals a filter of the concatenated packet list), rejects_mixed (differing field "
              "sets are rejected), fits_unsigned / fits_signed (the dtype requested for an uncalibrated integer encoding of <= 64 "
-             "bits holds every value the encoding produces), enum_is_str. PARTIAL: numpy's array conversion and xarray's Dataset "
+             "bits holds every value the encoding produces), rep_of_decode / ieee_fits / mil_fits (the float dtype chosen — float32 "
+             "only for IEEE 32-bit fields, float64 for 16/64-bit IEEE and for MIL-STD-1750A — contains every finite value the "
+             "encoding decodes to, as m*2^e within the format's precision and exponent range), enum_is_str. PARTIAL: numpy's array conversion and xarray's Dataset "
              "are outside the model; that each stored cell equals the parsed value is observed by the correspondence on real "
              "datasets (dtype and every cell compared). Two recorded open findings (NUL stripping in bytes/str columns; raw "
              "string buffers stored through a 'str' dtype) are reported as KNOWN-FINDING and any other difference is a violation.",
@@ -162,7 +164,11 @@ CLAIMED = {
              "condition_roundtrip, linear_adjustment_roundtrip (slope and intercept, which the library's own == ignores), "
              "term_roundtrip / polynomial_roundtrip and splinepoint_roundtrip / spline_roundtrip via the generic mapM_roundtrip "
              "(spline points keep their stored order: sorting a strictly increasing list is the identity), under the stated hypotheses that CPython's "
-             "str/int/float printing and parsing round-trip. The round trip of whole encodings, parameter types, containers and "
+             "str/int/float printing and parsing round-trip; on top of those discrete_lookup_roundtrip, contextmatch_roundtrip / "
+             "context_calibrator_roundtrip, default_calibrator_roundtrip / context_list_roundtrip, and the whole-encoding theorems "
+             "int_encoding_roundtrip, float_encoding_roundtrip and binary_encoding_roundtrip (every attribute, the default and "
+             "all context calibrators, fixed / referenced / looked-up sizes with their adjustment) for encodings whose context "
+             "criteria are comparisons. The round trip of string encodings, parameter types, containers and "
              "the equality of decoding is not a theorem: it is decided by the correspondence — definitions built both ways "
              "(loaded from independently written XML with units, empty descriptions, time types, unconditional inheritance; "
              "assembled from objects) go through write/load/write/load/write on model and library, every stage is compared, and "
